@@ -4,6 +4,7 @@ import (
 	"encoding/json"
 	"fmt"
 	"go/ast"
+	"go/constant"
 	"go/token"
 	"go/types"
 	"os"
@@ -453,7 +454,6 @@ func isErrorType(t types.Type) bool {
 	return types.Identical(t, types.Universe.Lookup("error").Type())
 }
 
-
 // withPkgHelpers: fn and the unexported, non-method functions of its own package statically reachable from it.
 func (w *World) withPkgHelpers(fn *ssa.Function) []*ssa.Function {
 	out := []*ssa.Function{fn}
@@ -478,4 +478,132 @@ func (w *World) withPkgHelpers(fn *ssa.Function) []*ssa.Function {
 		}
 	}
 	return out
+}
+
+// tableRows resolves arguments that are fields of the element of a range loop over a slice literal of structs
+// (registrations written as a table walked by a loop): for field selections v1, v2 … of one element it returns,
+// per row of the literal, the values stored into those fields.
+func tableRows(vals ...ssa.Value) [][]ssa.Value {
+	type sel struct {
+		arr   *ssa.Alloc
+		field int
+	}
+	var sels []sel
+	for _, v := range vals {
+		if mi, ok := v.(*ssa.MakeInterface); ok {
+			v = mi.X
+		}
+		var base ssa.Value
+		field := -1
+		switch x := v.(type) {
+		case *ssa.Field:
+			base, field = x.X, x.Field
+		case *ssa.UnOp:
+			if fa, ok := x.X.(*ssa.FieldAddr); ok && x.Op == token.MUL {
+				base, field = fa.X, fa.Field
+			}
+		}
+		if base == nil {
+			return nil
+		}
+		// base: the loop's element: *(&slice[i]) or a local it was copied into, or the address &slice[i]
+		var ia *ssa.IndexAddr
+		var find func(b ssa.Value, depth int)
+		find = func(b ssa.Value, depth int) {
+			if depth > 5 || ia != nil {
+				return
+			}
+			switch y := b.(type) {
+			case *ssa.IndexAddr:
+				ia = y
+			case *ssa.UnOp:
+				find(y.X, depth+1)
+			case *ssa.Alloc:
+				for _, ref := range *y.Referrers() {
+					if st, ok := ref.(*ssa.Store); ok && st.Addr == ssa.Value(y) {
+						find(st.Val, depth+1)
+					}
+				}
+			case *ssa.Phi:
+				for _, op := range y.Edges {
+					find(op, depth+1)
+				}
+			}
+		}
+		find(base, 0)
+		if ia == nil {
+			return nil
+		}
+		var arr *ssa.Alloc
+		switch s := ia.X.(type) {
+		case *ssa.Slice:
+			arr, _ = s.X.(*ssa.Alloc)
+		case *ssa.Alloc:
+			arr = s
+		}
+		if arr == nil {
+			return nil
+		}
+		sels = append(sels, sel{arr, field})
+	}
+	if len(sels) == 0 {
+		return nil
+	}
+	for _, s := range sels[1:] {
+		if s.arr != sels[0].arr {
+			return nil
+		}
+	}
+	// rows of the literal: stores into &arr[k].field
+	rows := map[int64]map[int]ssa.Value{}
+	for _, ref := range *sels[0].arr.Referrers() {
+		ia, ok := ref.(*ssa.IndexAddr)
+		if !ok {
+			continue
+		}
+		k, ok := ia.Index.(*ssa.Const)
+		if !ok || k.Value == nil || k.Value.Kind() != constant.Int {
+			continue
+		}
+		for _, u := range *ia.Referrers() {
+			fa, ok := u.(*ssa.FieldAddr)
+			if !ok {
+				continue
+			}
+			for _, u2 := range *fa.Referrers() {
+				if st, ok := u2.(*ssa.Store); ok && st.Addr == ssa.Value(fa) {
+					if rows[k.Int64()] == nil {
+						rows[k.Int64()] = map[int]ssa.Value{}
+					}
+					rows[k.Int64()][fa.Field] = st.Val
+				}
+			}
+		}
+	}
+	var out [][]ssa.Value
+	for i := int64(0); i < int64(len(rows)); i++ {
+		row, ok := rows[i]
+		if !ok {
+			return nil
+		}
+		var vs []ssa.Value
+		for _, s := range sels {
+			vs = append(vs, row[s.field])
+		}
+		out = append(out, vs)
+	}
+	return out
+}
+
+func fnValueOf(v ssa.Value) *ssa.Function {
+	if mi, ok := v.(*ssa.MakeInterface); ok {
+		v = mi.X
+	}
+	switch g := v.(type) {
+	case *ssa.Function:
+		return g
+	case *ssa.MakeClosure:
+		return g.Fn.(*ssa.Function)
+	}
+	return nil
 }
